@@ -170,4 +170,4 @@ pub mod sha2 {
 
 #[cfg(kani)]
 #[path = "/verif/units/kani/core_hasher.rs"]
-mod verif_kani;
+pub(crate) mod verif_kani;
